@@ -848,5 +848,87 @@ theorem size_monotone {st st' : St} (h : Steps st st') : st.lis.size ≤ st'.lis
     omega
   · exact hge
 
+/-! ### a listener registered with `listen` stays active under drops, clones and collections -/
+
+/-- registered with `listen` (not `listen_weak`), not marked for collection, not unlistened -/
+def Strong (l : Lis) : Prop := l.weak = false ∧ l.dying = false ∧ l.active = true
+
+/-- every strong listener of `a` is still there, at the same index, and still strong in `b` -/
+def Keeps (a b : Array Lis) : Prop :=
+  ∀ (id : Nat) (l : Lis), a[id]? = some l → Strong l → ∃ l' : Lis, b[id]? = some l' ∧ Strong l'
+
+theorem Keeps.refl (a : Array Lis) : Keeps a a := fun _ l h hs => ⟨l, h, hs⟩
+
+theorem Keeps.trans {a b c : Array Lis} (h1 : Keeps a b) (h2 : Keeps b c) : Keeps a c := by
+  intro id l h hs
+  obtain ⟨l', hb, hs'⟩ := h1 id l h hs
+  exact h2 id l' hb hs'
+
+theorem keeps_modify (a : Array Lis) (v : Nat) (f : Lis → Lis) (hf : ∀ l, Strong l → f l = l) :
+    Keeps a (a.modify v f) := by
+  unfold Keeps
+  intro id l h hs
+  rw [Array.getElem?_modify]
+  by_cases hv : v = id
+  · subst hv; simp [h, hf l hs]; exact hs
+  · simp [hv, h]; exact hs
+
+theorem keeps_map (a : Array Lis) (f : Lis → Lis) (hf : ∀ l, Strong l → f l = l) : Keeps a (a.map f) := by
+  unfold Keeps
+  intro id l h hs
+  simp [h, hf l hs]; exact hs
+
+/-- dropping any handle — the listener's own included — leaves a strong listener as it is -/
+theorem keeps_stmt_drop (st : St) (x : String) : Keeps st.lis (stmt st ["drop", x]).1.lis := by
+  rw [stmt_drop]
+  split
+  any_goals exact Keeps.refl _
+  exact keeps_modify _ _ _ (fun l hs => by simp [hs.1])
+
+/-- a collection leaves a strong listener as it is -/
+theorem keeps_stmt_gc (st : St) : Keeps st.lis (stmt st ["gc"]).1.lis := by
+  unfold stmt
+  exact keeps_map _ _ (fun l hs => by simp [hs.2.1])
+
+theorem keeps_stmt_clone (st : St) (l x : String) : Keeps st.lis (stmt st ["clone", l, x]).1.lis := by
+  rw [stmt_clone]
+  split
+  · exact Keeps.refl _
+  · split <;> exact Keeps.refl _
+
+/-- lines that only drop handles, clone handles, or collect -/
+inductive Harmless : List String → Prop
+  | drop (x : String) : Harmless ["drop", x]
+  | gc : Harmless ["gc"]
+  | clone (l x : String) : Harmless ["clone", l, x]
+
+theorem keeps_stmt_harmless (st : St) (ws : List String) (h : Harmless ws) : Keeps st.lis (stmt st ws).1.lis := by
+  cases h
+  case drop x => exact keeps_stmt_drop _ _
+  case gc => exact keeps_stmt_gc _
+  case clone l x => exact keeps_stmt_clone _ _ _
+
+/-- the state after a list of lines -/
+def runLines (st : St) (lines : List (List String)) : St := lines.foldl (fun st ws => (stmt st ws).1) st
+
+theorem keeps_runLines (lines : List (List String)) (st : St) (h : ∀ ws ∈ lines, Harmless ws) :
+    Keeps st.lis (runLines st lines).lis := by
+  induction lines generalizing st with
+  | nil => exact Keeps.refl _
+  | cons ws rest ih =>
+    have h1 := keeps_stmt_harmless st ws (h ws (by simp))
+    have h2 := ih (stmt st ws).1 (fun w hw => h w (by simp [hw]))
+    exact Keeps.trans h1 h2
+
+/-- C10: a listener registered with `listen` keeps being called even if its handle and every other handle are dropped
+    and collections run: after any list of `drop` / `gc` / `clone` lines it is still there, still active, and what it
+    receives from a transaction is still given by `listen_stream` / `listen_cell_*` -/
+theorem strong_listener_survives_drops_and_gc (st : St) (lines : List (List String))
+    (h : ∀ ws ∈ lines, Harmless ws) (id : Nat) (l : Lis) (hl : st.lis[id]? = some l)
+    (hw : l.weak = false) (hd : l.dying = false) (ha : l.active = true) :
+    ∃ l' : Lis, (runLines st lines).lis[id]? = some l' ∧ l'.active = true ∧ l'.weak = false ∧ l'.dying = false := by
+  obtain ⟨l', h1, h2⟩ := keeps_runLines lines st h id l hl ⟨hw, hd, ha⟩
+  exact ⟨l', h1, h2.2.2, h2.1, h2.2.1⟩
+
 end Spec
 end SodiumVerif
